@@ -179,6 +179,56 @@ func cliChecks(r *ev.Run, b *builds) {
 			}
 		}
 	}
+	// nothing to read / nothing that can be read: an error exit, no crash, no entries on stdout
+	empty := filepath.Join(b.dir, "empty.bin")
+	_ = os.WriteFile(empty, nil, 0o644)
+	one := filepath.Join(b.dir, "valid0.bin")
+	for _, c := range []struct{ name, sh string }{
+		{"empty-file-redirected", fmt.Sprintf("%s < %s", bin, shellQuote(empty))},
+		{"missing-file", fmt.Sprintf("%s -file %s", bin, shellQuote(filepath.Join(b.dir, "no-such-file.bin")))},
+		{"field-number-above-the-maximum-in-a-path", fmt.Sprintf("%s -expand 536870912 -file %s", bin, shellQuote(one))},
+		{"non-numeric-path", fmt.Sprintf("%s -strings 1.x -file %s", bin, shellQuote(one))},
+	} {
+		stdout, stderr, exit, crashed := run(c.sh)
+		n++
+		display := strings.ReplaceAll(strings.ReplaceAll(c.sh, b.protodump, "protodump"), b.dir+"/", "")
+		info := cliInfo{Command: display, Exit: exit, Stdout: clipN(stdout, 400), Stderr: clipN(stderr, 400)}
+		switch {
+		case crashed:
+			info.Msg = "Go panic / fatal error trace"
+			r.Fail("protodump/cli/"+c.name+"/crash", display, info)
+		case exit == 0 || strings.Contains(stdout, "tag:"):
+			info.Msg = "no usable input, but exit status 0 or entries on stdout"
+			r.Fail("protodump/cli/"+c.name+"/not-reported-as-error", display, info)
+		default:
+			nt++
+		}
+	}
+	// the largest field number is a legal path element and is matched
+	{
+		big := []tfield{msg(1<<29-1, []tfield{vi(1, 5)}), vi(2, 6)}
+		data := encodeTree(big)
+		f := filepath.Join(b.dir, "maxtag.bin")
+		_ = os.WriteFile(f, data, 0o644)
+		sh := fmt.Sprintf("%s -expand 536870911 -file %s", bin, shellQuote(f))
+		stdout, stderr, exit, crashed := run(sh)
+		n++
+		ref := refDump(data, refCfg{expand: pathSet{{1<<29 - 1}}})
+		info := cliInfo{Command: "protodump -expand 536870911 -file maxtag.bin", Input: hex.EncodeToString(data), Exit: exit, Stdout: clipN(stdout, 600), Stderr: clipN(stderr, 400)}
+		got, perr := parseOutput([]byte(stdout))
+		switch {
+		case crashed || exit != 0 || perr != nil:
+			info.Msg = fmt.Sprintf("crashed=%v parse error=%v", crashed, perr)
+			r.Fail("protodump/cli/max-field-number-path/rejected", info.Command, info)
+		default:
+			if class, msg := compare(got, false, ref); class != "" {
+				info.Msg = msg
+				r.Fail("protodump/cli/max-field-number-path/"+class, info.Command, info)
+			} else {
+				nt++
+			}
+		}
+	}
 	r.Evals(n)
 	r.Nontrivial(nt)
 	r.Set("cli_invocations", n)
